@@ -47,6 +47,10 @@ def build_cases(tier):
         cases.append(dict(c, variants=v64))
     for c in F.w_alias()[5:]:
         cases.append(dict(c, variants=[{}, {"inline_functions": False}, {"inline_functions": False, "use_push_pop_functions": True}]))
+    from .c05 import is_f05b
+
+    for c in F.names_inline():
+        cases.append(dict(c, variants=[v for v in v32 if not v["tail_call_optimization"]], family=("W-F05b" if is_f05b(c["names"]) else c["family"])))
     for c in F.w_tailcall():
         cases.append(dict(c, variants=[v for v in v32 if not v["inline_functions"]]))
     for c in F.lists(tier, lens=range(2, 6)):
